@@ -322,6 +322,25 @@ def members(r, n, maxlen=12, neg=False):
     return out
 
 
+def near_misses(r, n, maxlen=12):
+    """Non-members of r that contain a member as a proper suffix or prefix (what separates match from
+    search / fullmatch, and a dropped anchor)."""
+    s = z3.String("w")
+    out = []
+    anyplus = z3.Plus(ALLCHAR)
+    for shape in (z3.Concat(anyplus, r), z3.Concat(r, anyplus)):
+        sol = z3.Solver()
+        sol.set("timeout", 10000)
+        sol.add(z3.Length(s) <= maxlen, z3.InRe(s, shape), z3.Not(z3.InRe(s, r)))
+        k = 0
+        while k < n and str(sol.check()) == "sat":
+            w = sol.model().eval(s, model_completion=True)
+            out.append(decode(w))
+            sol.add(s != w)
+            k += 1
+    return out
+
+
 def in_lang(w, r):
     return z3.is_true(z3.simplify(z3.InRe(z3.StringVal(w), r)))
 
